@@ -97,7 +97,9 @@ impl Gen {
         let mut o = op("mget");
         let count = self.rng.gen_range(1..=3.min(keys.len()));
         o.ks = (0..count).map(|_| *keys.choose(&mut self.rng).unwrap()).collect();
-        o.ks.dedup();
+        // no key twice: multi_get answers with a map, which cannot tell two lookups of one key apart
+        let mut seen = std::collections::HashSet::new();
+        o.ks.retain(|key| seen.insert(*key));
         o.var = self.pick(&["multi_get", "iter", "map_iter"]).to_string();
         o
     }
